@@ -369,6 +369,10 @@ where
 {
     let mut frames_collector = QuicFramesCollector::<PacketReceived>::new();
     let mut packet_content = PacketContent::default();
+    // RFC 9000 §12.4: a packet containing no frames is a connection error of type PROTOCOL_VIOLATION
+    if packet.body().is_empty() {
+        return Err(QuicError::from(qbase::frame::error::Error::NoFrames).into());
+    }
     let frame_reader = FrameReader::new(packet.body(), packet.get_type());
     for frame_result in frame_reader {
         let (frame, r#type) = frame_result.map_err(QuicError::from)?;
